@@ -165,6 +165,7 @@ package quickfix
 //@   requires parsedFieldBytes != nil
 //@   requires @poslen dataLen > 0
 //@   ensures @shorter len(remBytes) <= len(buffer)
+//@   ensures @consumed err == nil ==> len(remBytes) < len(buffer)
 //@   modifies parsedFieldBytes.*
 
 // ---- field_map.go -----------------------------------------------------------------------
@@ -208,10 +209,11 @@ package quickfix
 
 // add: used by the parser; the field carries its own tag
 //@ func (m *FieldMap) add [C09,C10,C11]
-//@   requires fmwf(m) && len(f) >= 1
+//@   requires m.tagLookup != nil && len(f) >= 1
+//@   modifies m.tags, m.tags[*], m.tagLookup[*], fresh E.quickfix.Tag
 //@   ensures @present has(m.tagLookup, f[0].tag) && m.tagLookup[f[0].tag] == f
 //@   ensures @others forall t Tag :: t != f[0].tag ==> (has(m.tagLookup, t) <==> old(has(m.tagLookup, t))) && m.tagLookup[t] == old(m.tagLookup[t])
-//@   ensures @wf fmwf(m)
+//@   ensures @order old(fmorder(m)) ==> fmorder(m)
 //@   ensures @same m.tagLookup == old(m.tagLookup) && m.rwLock == old(m.rwLock) && m.compare == old(m.compare)
 
 // setters: afterwards the tag is present with a one-element field [tag = value] in a fresh buffer; all other tags untouched
@@ -264,6 +266,8 @@ package quickfix
 
 //@ func (m *FieldMap) clearNoLock [C10,C11]
 //@   requires m.tagLookup != nil && m.rwLock != nil
+//@   modifies m.tags, m.tagLookup[*]
+//@   loop 1 modifies m.tagLookup[*]
 //@   ensures @empty forall t Tag :: !has(m.tagLookup, t)
 //@   ensures @wf fmwf(m)
 //@   loop 1 invariant @deleted forall k Tag :: seen(k) ==> !has(m.tagLookup, k)
@@ -507,17 +511,60 @@ package quickfix
 //@   ensures @value result1 == nil ==> result0 == string(m.Header.tagLookup[35][0].value)
 //@   modifies fresh H.quickfix.messageRejectError.*, fresh P.quickfix.Tag, fresh P.quickfix.FIXString
 
+// (only objects allocated inside, none of which escapes, are written: pure for callers)
 //@ func isNumInGroupField [C09]
+//@   pure
 //@   requires msg != nil && fmvals(msg.Header.FieldMap) && ddwf(appDataDictionary)
-//@   modifies fresh MH.int.ptr.datadictionary.FieldDef, fresh MV.int.ptr.datadictionary.FieldDef, fresh H.quickfix.messageRejectError.*, fresh P.quickfix.Tag, fresh P.quickfix.FIXString
 //@   loop 1 invariant @vals forall k int :: has(fields, k) ==> fields[k] != nil
 //@   loop 2 invariant @newvals forall k int :: has(newFields, k) ==> newFields[k] != nil
 //@   loop 2 invariant @keep forall k int :: has(fields, k) ==> fields[k] != nil
 
 //@ func getGroupFields [C09]
 //@   requires msg != nil && fmvals(msg.Header.FieldMap) && ddwf(appDataDictionary)
+//@   pure
 //@   ensures @nonnil forall i :: 0 <= i && i < len(fields) ==> fields[i] != nil
-//@   modifies fresh MH.int.ptr.datadictionary.FieldDef, fresh MV.int.ptr.datadictionary.FieldDef, fresh H.quickfix.messageRejectError.*, fresh P.quickfix.Tag, fresh P.quickfix.FIXString
 //@   loop 1 invariant @vals forall k int :: has(fields, k) ==> fields[k] != nil
 //@   loop 2 invariant @newvals forall k int :: has(newFields, k) ==> newFields[k] != nil
 //@   loop 2 invariant @keep forall k int :: has(fields, k) ==> fields[k] != nil
+
+// ---- message.go: parsing -------------------------------------------------------------------------
+//@ spec mapsok(msg *Message) bool = msg.Header.tagLookup != nil && msg.Body.tagLookup != nil && msg.Trailer.tagLookup != nil && msg.Header.rwLock != nil && msg.Body.rwLock != nil && msg.Trailer.rwLock != nil && msg.Header.tagLookup != msg.Body.tagLookup && msg.Header.tagLookup != msg.Trailer.tagLookup && msg.Body.tagLookup != msg.Trailer.tagLookup && allocated(msg.Header.tagLookup) && allocated(msg.Body.tagLookup) && allocated(msg.Trailer.tagLookup)
+// every lookup value of section m is a non-empty window of the message's field array that starts before position lim
+// and whose first field carries the key (so parsing field number lim does not disturb it)
+//@ spec inwindow(m *FieldMap, fields []TagValue, lim int) bool = forall t Tag :: has(m.tagLookup, t) ==> arr(m.tagLookup[t]) == arr(fields) && off(fields) <= off(m.tagLookup[t]) && off(m.tagLookup[t]) < off(fields) + lim && len(m.tagLookup[t]) >= 1 && m.tagLookup[t][0].tag == t
+
+//@ func parseGroup [C09,C13]
+//@   lemmas none
+//@   replay ParseMessageWithDataDictionary(NewMessage(), bytes.NewBuffer(${mp.rawBytes}), nil, nil)
+//@   requires mp != nil && mp.msg != nil && mapsok(mp.msg) && len(tags) >= 1
+//@   requires ddhdr(mp.transportDataDictionary) && ddwf(mp.appDataDictionary)
+//@   requires 0 <= mp.fieldIndex && mp.fieldIndex < len(mp.msg.fields) && mp.parsedFieldBytes != nil
+//@   requires @winH inwindow(mp.msg.Header.FieldMap, mp.msg.fields, mp.fieldIndex)
+//@   requires @winB inwindow(mp.msg.Body.FieldMap, mp.msg.fields, mp.fieldIndex)
+//@   requires @winT inwindow(mp.msg.Trailer.FieldMap, mp.msg.fields, mp.fieldIndex)
+//@   ensures @stable mp.msg == old(mp.msg) && mp.msg.fields == old(mp.msg.fields) && mp.parsedFieldBytes != nil && mapsok(mp.msg) && mp.msg.rawMessage == old(mp.msg.rawMessage) && mp.transportDataDictionary == old(mp.transportDataDictionary) && mp.appDataDictionary == old(mp.appDataDictionary)
+//@   ensures @index old(mp.fieldIndex) <= mp.fieldIndex && mp.fieldIndex <= len(mp.msg.fields)
+//@   ensures @winH inwindow(mp.msg.Header.FieldMap, mp.msg.fields, mp.fieldIndex + 1)
+//@   ensures @winB inwindow(mp.msg.Body.FieldMap, mp.msg.fields, mp.fieldIndex + 1)
+//@   ensures @winT inwindow(mp.msg.Trailer.FieldMap, mp.msg.fields, mp.fieldIndex + 1)
+//@   ensures @shorter len(mp.rawBytes) <= old(len(mp.rawBytes))
+//@   loop 1 invariant @idx 0 <= mp.fieldIndex && mp.fieldIndex < len(mp.msg.fields) && old(mp.fieldIndex) <= mp.fieldIndex
+//@   loop 1 invariant @dm arr(dm) == arr(mp.msg.fields) && off(mp.msg.fields) <= off(dm) && off(dm) + len(dm) == off(mp.msg.fields) + mp.fieldIndex + 1 && len(dm) >= 1 && off(dm) + cap(dm) == off(mp.msg.fields) + cap(mp.msg.fields)
+//@   loop 1 invariant @tags len(tags) >= 1 && mp.parsedFieldBytes != nil && len(mp.rawBytes) <= old(len(mp.rawBytes))
+//@   loop 1 invariant @members forall i :: 0 <= i && i < len(fields) ==> fields[i] != nil
+//@   loop 1 invariant @winH inwindow(mp.msg.Header.FieldMap, mp.msg.fields, mp.fieldIndex + 1)
+//@   loop 1 invariant @winB inwindow(mp.msg.Body.FieldMap, mp.msg.fields, mp.fieldIndex + 1)
+//@   loop 1 invariant @winT inwindow(mp.msg.Trailer.FieldMap, mp.msg.fields, mp.fieldIndex + 1)
+//@   loop 1 decreases len(mp.msg.fields) - mp.fieldIndex
+
+//@ func doParsing [C09,C11]
+//@   lemmas none
+//@   replay ParseMessage(NewMessage(), bytes.NewBuffer(${mp.rawBytes}))
+//@   requires mp != nil && mp.msg != nil && mp.fieldIndex == 0 && mapsok(mp.msg)
+//@   requires ddhdr(mp.transportDataDictionary) && ddwf(mp.appDataDictionary)
+//@   ensures @raw mp.msg.rawMessage == old(mp.msg.rawMessage)
+//@   loop 1 invariant @idx 3 <= mp.fieldIndex && mp.fieldIndex <= len(mp.msg.fields) + 1
+//@   loop 1 invariant @winH inwindow(mp.msg.Header.FieldMap, mp.msg.fields, mp.fieldIndex)
+//@   loop 1 invariant @winB inwindow(mp.msg.Body.FieldMap, mp.msg.fields, mp.fieldIndex)
+//@   loop 1 invariant @winT inwindow(mp.msg.Trailer.FieldMap, mp.msg.fields, mp.fieldIndex)
+//@   loop 1 decreases len(mp.rawBytes)
